@@ -243,6 +243,7 @@ def main():
     lines.append("* C11 queue-reused-across-groups: every sentinel of a group is consumed before the next group starts, so reusing the queue changes nothing.")
     lines.append("* C13 exit-code-check-dropped / only-first-process-checked: since the `fix:` commit that aborts as soon as one worker has a non-zero exit code, the later all-exited test is a second line of defence; with it weakened the death is still seen by `any_failed` on the next poll.")
     lines.append("* C15 parent-guard-dropped: treating the tree edge back to the parent as a back edge cannot lower low[child] below disc[parent], and blocks are node sets, so vertex-biconnectivity results are unchanged.")
+    lines.append("* C07 csv-colour-swapped: scaffold nodes become 'gray' and bubble nodes 'orange' - still one label per role; the statement asks for the role, not for particular colour names (the documentation's figure even uses yellow), so the oracle only requires a consistent two-valued role column.")
     lines.append("* C20 last-tsv-row-wins: repeated TSV rows are identical in the generated domain (conflicting duplicates are undefined by the statement).")
     if not want:
         open(os.path.join(ROOT, "MUTATION_AUDIT.md"), "w").write("\n".join(lines) + "\n")
